@@ -76,6 +76,20 @@ def run(tier, v):
                          timeout=3000, max_rounds=40)
     cov["traces_validated_against_impl"] = s["runs"] + ncrash
     cov["child_crashes"] = ncrash
+    # byte streams against the line readers themselves (crash-only oracle; what is returned is C03's / C16's subject)
+    out2 = os.path.join(vlib.scratch(), "c12streams")
+    s2 = vlib.run_driver(h, "c12_streams", out2, {"streams": 40000 if quick else 800000, "shards": 32}, timeout=3000)
+    cov["reader_streams"] = s2.get("streams", 0)
+    cov["reader_stream_panics"] = s2.get("panics", 0)
+    import glob as _glob
+    for hf in sorted(_glob.glob(os.path.join(out2, "shard-*", "hits.json"))):
+        for hit in (json.load(open(hf)) or []):
+            what = "slow" if hit.get("slow") and not hit.get("panic") else "panic"
+            site = re.sub(r"[^A-Za-z0-9 ]+", " ", hit.get("panic") or "no return in time")[:50].strip().replace(" ", "-")
+            v.violation("reader-%s:%s:%s:%s" % (what, hit["mode"], hit["call"], site),
+                        "the real %s reader (%s framing) %s on a byte stream: %s -- stream %s chunks %s" % (
+                            hit["call"], hit["mode"], "did not return in time" if what == "slow" else "panicked", hit.get("panic"), hit["stream"][:300], hit["chunks"][:40]),
+                        {"stream_hit": hit})
     cov["tv_states"] = st
     labels = {}
     for d in details.values():
